@@ -1,0 +1,11 @@
+//go:build verif
+
+// Contracts for package wkb, read by the VC generator in /verif (govc). Comments only.
+
+package wkb
+
+//@ func (*Decoder).Decode(d)
+//@   requires d.d != nil && d.d.r != nil
+
+//@ func (*GeometryScanner).Scan(s, d)
+//@   requires wkbcommon.destOK(s.g)
